@@ -3308,6 +3308,7 @@ pub(crate) async fn parse_module_source_and_info(
       opts.content,
       maybe_charset,
       opts.mtime,
+      opts.maybe_referrer,
     )
     .map(|source| ModuleSourceAndInfo::Json {
       specifier: opts.specifier,
@@ -3361,6 +3362,7 @@ pub(crate) async fn parse_module_source_and_info(
         opts.content,
         maybe_charset,
         opts.mtime,
+        opts.maybe_referrer,
       )?;
       match module_analyzer
         .analyze(&opts.specifier, source.text.clone(), media_type)
@@ -5263,6 +5265,7 @@ impl<'a, 'graph> Builder<'a, 'graph> {
                         content,
                         None, // no charset for JSR
                         None, // no mtime for JSR
+                        item.maybe_range.as_ref(),
                       ) {
                         Ok(source) => {
                           module.source = source;
@@ -5276,6 +5279,7 @@ impl<'a, 'graph> Builder<'a, 'graph> {
                         content,
                         None, // no charset for JSR
                         None, // no mtime for JSR
+                        item.maybe_range.as_ref(),
                       ) {
                         Ok(source) => {
                           module.source = source;
@@ -7074,6 +7078,7 @@ fn new_source_with_text(
   bytes: Arc<[u8]>,
   maybe_charset: Option<&str>,
   mtime: Option<SystemTime>,
+  maybe_referrer: Option<&Range>,
 ) -> Result<ModuleTextSource, ModuleError> {
   let charset = maybe_charset.unwrap_or_else(|| {
     deno_media_type::encoding::detect_charset(specifier, bytes.as_ref())
@@ -7086,7 +7091,7 @@ fn new_source_with_text(
     .map_err(|err| {
       ModuleErrorKind::Load {
         specifier: specifier.clone(),
-        maybe_referrer: None,
+        maybe_referrer: maybe_referrer.cloned(),
         err: ModuleLoadError::Decode(Arc::new(DecodeError { mtime, err })),
       }
       .into_box()
